@@ -30,6 +30,17 @@ PROPS = {
         ],
         "assumptions": ASSUME_COMMON,
     },
+    "C02": {
+        "level": "exploration",
+        "design_ref": "§6 C02",
+        "level_text": L_EXPL + "; every register() verdict in random near-conflict sequences is compared with a 9-rule conflict model, accepted sets are re-offered in other orders, every accepted endpoint is probed for reachability in the real router and every accepted table checked pairwise for model ambiguity",
+        "level_note": "parameter-type facts (scalar / non-scalar) come from a hand-annotated corpus of path/query structs; wildcard variables are always bound to Vec<String>; tag policy is only judged on published endpoints; exotic classes (empty range, dot literals) are tagged",
+        "technique": "runtime monitoring: conflict reference model vs real register() (Ok/Err/panic via catch_unwind) over generated registration sequences, order permutations, reachability probes",
+        "engines": [
+            {"name": "c02-registration"},
+        ],
+        "assumptions": ASSUME_COMMON,
+    },
     "C03": {
         "level": "exploration",
         "design_ref": "§6 C03",
@@ -52,6 +63,17 @@ PROPS = {
         "engines": [
             {"name": "c05-exhaustive"},
             {"name": "c05-random"},
+        ],
+        "assumptions": ASSUME_COMMON,
+    },
+    "C06": {
+        "level": "exploration",
+        "design_ref": "§6 C06",
+        "level_text": L_EXPL + "; for every generated table and every version of U (plus range bounds) the document's operation set is compared with the model's served-and-published set, every documented and every unpublished in-range endpoint is looked up in the real router, every $ref is resolved, and bytes are compared across renderings, registration orders and processes",
+        "level_note": "trusts the reference dispatch model; wildcard endpoints are kept unpublished (as the macro enforces); request/response types come from a small fixed corpus with shared, recursive and same-named types",
+        "technique": "runtime monitoring: document-vs-model and document-vs-router comparison on generated APIs, reference resolution walk, byte-equality metamorphic checks (twice / permuted order / other process)",
+        "engines": [
+            {"name": "c06-openapi"},
         ],
         "assumptions": ASSUME_COMMON,
     },
